@@ -73,11 +73,17 @@ NoAB == [exists |-> FALSE, hasCtx |-> FALSE, hasResolve |-> FALSE, within |-> 0,
 IdleCx == [phase |-> "idle", gen |-> 0, isCtx |-> FALSE, plug |-> FALSE, cancelFlag |-> FALSE,
            failed |-> FALSE, outcome |-> "", members |-> {}, starter |-> None, out |-> 0,
            startCb |-> "done", relayChk |-> TRUE, relaySpawned |-> FALSE, nscan |-> 0,
-           disposed |-> FALSE]
+           disposed |-> FALSE, stdin |-> 0, pays |-> {}]
 
-NewReq(cmd, k, isCtx, plug, bad) ==
+\* pay: identity (digest) of the byte-array payload the request carries (transform
+\* input, build stdin contents; 0 = none); seen: the payloads its result was
+\* computed from (what the handler goroutine read)
+NewReq(cmd, k, isCtx, plug, bad, pay) ==
   [cmd |-> cmd, key |-> k, st |-> "inbox", isCtx |-> isCtx, plug |-> plug, bad |-> bad,
-   kind |-> "", a |-> None, ref |-> FALSE, within |-> {}, pend |-> {}, n |-> 0, nw |-> 0]
+   kind |-> "", a |-> None, ref |-> FALSE, within |-> {}, pend |-> {}, n |-> 0, nw |-> 0,
+   pay |-> pay, seen |-> {}]
+
+NonZero(S) == S \ {0}
 
 \* response kinds a client may see for the kind a handler computed
 Kinds(k) == IF k = "either" THEN {"errors", "cancelled"} ELSE {k}
@@ -106,21 +112,24 @@ Init ==
 (***************************************************************************)
 \* A request is written to stdin.  Keys of "build" requests are fresh (the
 \* JS client numbers them; createActiveBuild panics otherwise).
-Send(i, cmd, k, isCtx, plug, bad) ==
+\* (the packet in `inbox` is the handler's own copy of the bytes: the decode
+\* loop clones every packet before dispatching it, see ServiceStream.tla)
+Send(i, cmd, k, isCtx, plug, bad, pay) ==
   /\ ~stdinClosed
   /\ i \notin Ids
   /\ cmd = "build" => k \notin usedKeys
-  /\ req' = req @@ (i :> NewReq(cmd, k, isCtx, plug, bad))
-  /\ inbox' = Append(inbox, [t |-> "req", id |-> i, err |-> FALSE])
+  /\ req' = req @@ (i :> NewReq(cmd, k, isCtx, plug, bad, pay))
+  /\ inbox' = Append(inbox, [t |-> "req", id |-> i, err |-> FALSE, pay |-> pay])
   /\ usedKeys' = IF cmd = "build" THEN usedKeys \cup {k} ELSE usedKeys
   /\ UNCHANGED <<ab, cx, cb, wbuf, mainBusy, keepAlive, stdinClosed, eof, exited, crashed, relays, grp, ncb, opAfterDispose>>
 
 \* The client answers a request of the service (err: the answer carries an error)
-Answer(m, err) ==
+\* pay: identity of the `contents` byte array of an on-load answer (0 = none)
+Answer(m, err, pay) ==
   /\ ~stdinClosed
   /\ m \in DOMAIN cb /\ cb[m].st = "written"
-  /\ cb' = [cb EXCEPT ![m].st = "answered"]
-  /\ inbox' = Append(inbox, [t |-> "resp", id |-> m, err |-> err])
+  /\ cb' = [cb EXCEPT ![m].st = "answered", ![m].pay = pay]
+  /\ inbox' = Append(inbox, [t |-> "resp", id |-> m, err |-> err, pay |-> pay])
   /\ UNCHANGED <<req, ab, cx, wbuf, mainBusy, keepAlive, stdinClosed, eof, exited, crashed, relays, grp, usedKeys, ncb, opAfterDispose>>
 
 CloseStdin ==
@@ -227,7 +236,7 @@ MainHandoff ==
 \* A response of the client to a request of the service is decoded; the
 \* waiting goroutine continues (the intermediate goroutine that delivers the
 \* value holds its own keep-alive reference while it does so).
-CbOwnerDone(m, err) ==
+CbOwnerDone(m, err, pay) ==
   LET c == cb[m] k == cb[m].key IN
   IF c.cmd = "ping" THEN UNCHANGED <<req, cx>>
   ELSE IF c.owner # None
@@ -237,6 +246,7 @@ CbOwnerDone(m, err) ==
          /\ cx' = [cx EXCEPT ![k].failed = @ \/ (err /\ c.cmd # "on-end"),
                              ![k].startCb = IF c.cmd = "on-start" THEN "done" ELSE @,
                              ![k].out = IF c.cmd \in {"on-resolve", "on-load"} THEN @ - 1 ELSE @,
+                             ![k].pays = IF c.cmd = "on-load" /\ ~err THEN @ \cup NonZero({pay}) ELSE @,
                              ![k].phase = IF c.cmd = "on-end" THEN "ended" ELSE @,
                              ![k].outcome = IF c.cmd = "on-end" /\ err /\ @ = "ok" THEN "errors" ELSE @]
 
@@ -244,7 +254,7 @@ RecvResponse(m) ==
   /\ CanDecode /\ inbox[1].t = "resp" /\ inbox[1].id = m /\ Pop
   /\ m \in DOMAIN cb /\ cb[m].st = "answered"
   /\ cb' = [cb EXCEPT ![m].st = "done"]
-  /\ CbOwnerDone(m, inbox[1].err)
+  /\ CbOwnerDone(m, inbox[1].err, inbox[1].pay)
   /\ UNCHANGED <<ab, wbuf, mainBusy, keepAlive, stdinClosed, eof, exited, crashed, relays, grp, usedKeys, ncb, opAfterDispose>>
 
 \* end of stdin: the deferred keepAliveWaitGroup.Done(); Wait()
@@ -269,7 +279,7 @@ WriterStep(m) ==
        THEN /\ req' = [req EXCEPT ![wbuf.id].st = "responded", ![wbuf.id].nw = @ + 1]
             /\ UNCHANGED <<cb, ncb>>
        ELSE /\ m \notin DOMAIN cb
-            /\ cb' = cb @@ (m :> [cmd |-> wbuf.cmd, key |-> wbuf.key, owner |-> wbuf.owner, st |-> "written"])
+            /\ cb' = cb @@ (m :> [cmd |-> wbuf.cmd, key |-> wbuf.key, owner |-> wbuf.owner, st |-> "written", pay |-> 0])
             /\ ncb' = ncb + 1
             /\ UNCHANGED req
   /\ wbuf' = NoPkt
@@ -280,7 +290,7 @@ WriterStep(m) ==
 \* the ping goroutine holds no other state)
 Ping(m) ==
   /\ Pings /\ Alive /\ wbuf = NoPkt /\ m \notin DOMAIN cb
-  /\ cb' = cb @@ (m :> [cmd |-> "ping", key |-> NoKey, owner |-> None, st |-> "written"])
+  /\ cb' = cb @@ (m :> [cmd |-> "ping", key |-> NoKey, owner |-> None, st |-> "written", pay |-> 0])
   /\ ncb' = ncb + 1
   /\ UNCHANGED <<inbox, req, ab, cx, wbuf, mainBusy, keepAlive, stdinClosed, eof, exited, crashed, relays, grp, usedKeys, opAfterDispose>>
 
@@ -301,7 +311,8 @@ StartBuild(k, i, isCtx, plug) ==
   [cx[k] EXCEPT !.phase = "start", !.gen = @ + 1, !.isCtx = isCtx, !.plug = plug, !.cancelFlag = FALSE,
                 !.failed = FALSE, !.outcome = "", !.members = {i}, !.starter = i, !.out = 0,
                 !.startCb = IF plug THEN "todo" ELSE "done",
-                !.relayChk = ~isCtx, !.relaySpawned = FALSE, !.nscan = 0]
+                !.relayChk = ~isCtx, !.relaySpawned = FALSE, !.nscan = 0,
+                !.pays = NonZero({cx[k].stdin})]   \* the stdin contents are read when the build starts
 
 \* the OnStart callback of the service's own "onEnd" plugin: the cancel relay
 RelayCheck(k) ==
@@ -402,7 +413,7 @@ SkipOnEnd(k) ==
 BuildEnd(k) ==
   /\ Alive /\ cx[k].phase = "ended"
   /\ cx' = [cx EXCEPT ![k].phase = "idle", ![k].members = {}]
-  /\ req' = [i \in Ids |-> IF i \in cx[k].members THEN [req[i] EXCEPT !.st = "returned", !.kind = cx[k].outcome] ELSE req[i]]
+  /\ req' = [i \in Ids |-> IF i \in cx[k].members THEN [req[i] EXCEPT !.st = "returned", !.kind = cx[k].outcome, !.seen = cx[k].pays] ELSE req[i]]
   /\ UNCHANGED <<inbox, ab, cb, wbuf, mainBusy, keepAlive, stdinClosed, eof, exited, crashed, relays, grp, usedKeys, ncb, opAfterDispose>>
 
 (***************************************************************************)
@@ -411,7 +422,9 @@ BuildEnd(k) ==
 \* handleTransformRequest
 RunTransform(i) ==
   /\ Alive /\ i \in Ids /\ req[i].cmd = "transform" /\ req[i].st = "decoded"
-  /\ req' = [req EXCEPT ![i].st = "finished", ![i].kind = IF req[i].bad = "" THEN "ok" ELSE "error"]
+  \* string(request["input"].([]byte)): the goroutine reads the payload of its packet
+  /\ req' = [req EXCEPT ![i].st = "finished", ![i].kind = IF req[i].bad = "" THEN "ok" ELSE "error",
+                        ![i].seen = IF req[i].bad = "" THEN NonZero({req[i].pay}) ELSE {}]
   /\ UNCHANGED <<inbox, ab, cx, cb, wbuf, mainBusy, keepAlive, stdinClosed, eof, exited, crashed, relays, grp, usedKeys, ncb, opAfterDispose>>
 
 \* handleBuildRequest up to createActiveBuild and plugin setup
@@ -425,9 +438,9 @@ RunBuild(i) ==
             /\ keepAlive' = keepAlive + 1            \* createActiveBuild
             /\ IF req[i].isCtx
                  THEN /\ req' = [req EXCEPT ![i].st = "creating"]
-                      /\ cx' = [cx EXCEPT ![k] = [IdleCx EXCEPT !.isCtx = TRUE, !.plug = req[i].plug]]
+                      /\ cx' = [cx EXCEPT ![k] = [IdleCx EXCEPT !.isCtx = TRUE, !.plug = req[i].plug, !.stdin = req[i].pay]]
                  ELSE /\ req' = [req EXCEPT ![i].st = "running"]
-                      /\ cx' = [cx EXCEPT ![k] = StartBuild(k, i, FALSE, req[i].plug)]
+                      /\ cx' = [cx EXCEPT ![k] = [StartBuild(k, i, FALSE, req[i].plug) EXCEPT !.stdin = req[i].pay, !.pays = NonZero({req[i].pay})]]
   /\ UNCHANGED <<inbox, cb, wbuf, mainBusy, stdinClosed, eof, exited, crashed, relays, grp, usedKeys, ncb, opAfterDispose>>
 
 \* api.Context() returned: the context pointer is published, or the active
@@ -561,9 +574,11 @@ ClientSend ==
        /\ cmd \notin {"build", "transform"} => bad = ""
        /\ cmd = "transform" => ~isCtx /\ bad # "ctx" /\ k = CHOOSE kk \in Keys : TRUE
        /\ (cmd = "build" /\ ~isCtx) => bad # "ctx"
-       /\ Send(Cardinality(Ids), cmd, k, isCtx, plug, bad)
+       \* every transform / build carries a payload of its own (identity: id + 1)
+       /\ Send(Cardinality(Ids), cmd, k, isCtx, plug, bad, IF cmd \in {"build", "transform"} THEN Cardinality(Ids) + 1 ELSE 0)
 
-ClientAnswer == \E m \in DOMAIN cb, err \in BOOLEAN : Answer(m, err)
+\* every on-load answer carries contents of its own (identity: 100 + callback id)
+ClientAnswer == \E m \in DOMAIN cb, err \in BOOLEAN : Answer(m, err, IF cb[m].cmd = "on-load" /\ ~err THEN 100 + m ELSE 0)
 
 Next ==
   \/ Internal
@@ -636,6 +651,15 @@ CallbacksWithinBuild ==
   \A m \in DOMAIN cb : (cb[m].st # "done" /\ cb[m].cmd # "ping") =>
      IF cb[m].owner # None THEN req[cb[m].owner].st = "running"
      ELSE cx[cb[m].key].phase = (CASE cb[m].cmd = "on-start" -> "start" [] cb[m].cmd = "on-end" -> "end" [] OTHER -> "scan")
+
+\* A result is computed from the request's own payload, never from another
+\* request's: a transform from its own input; a build from the stdin contents
+\* of its own "build" request and the contents of on-load answers for its key
+Answered(i) == req[i].st \in {"finished", "handed", "responded"}
+PayloadIntegrity ==
+  \A i \in Ids : Answered(i) =>
+     IF req[i].cmd = "transform" THEN req[i].seen = (IF req[i].kind = "ok" THEN NonZero({req[i].pay}) ELSE {})
+     ELSE req[i].seen \subseteq NonZero({cx[req[i].key].stdin} \cup {cb[m].pay : m \in {mm \in DOMAIN cb : cb[mm].key = req[i].key /\ cb[mm].cmd = "on-load"}})
 
 KeepAliveNonNegative == keepAlive >= 0
 \* what the keep-alive counter is for
